@@ -138,6 +138,8 @@ structure Settings where
   the end of `_build_self` (globals handed down to subcommands are unbuilt clones and do not carry them) -/
   allowHyphenValues : Bool := false
   allowNegativeNumbers : Bool := false
+  /-- `Command::trailing_var_arg`: switched on for the positional with the highest index -/
+  trailingVarArg : Bool := false
 deriving Repr, DecidableEq
 
 inductive Cmd
